@@ -16,8 +16,8 @@ ALL_BAR_OPS = {"tick", "inc", "set_message", "println", "suspend", "reset", "fin
 
 
 def fam(name, W=3, H=4, Multi=False, MaxBars=1, D=4, BarOps=("tick",), MpOps=(), MsgShapes=("a",), TextShapes=("T",),
-        Tpls=("M",), Fins=("AndLeave",), Hz=0, DTs=(0,), Base=1, Align="top", M0="e", TabWs=(8,), Pre=0, Once=False, Tgt="auto", Faults=(), Cover=False, mode="bfs", shards=8, model="MC_Screen", extra=None):
-    return dict(name=name, mode=mode, shards=shards, model=model, extra=extra or {},
+        Tpls=("M",), Fins=("AndLeave",), Hz=0, DTs=(0,), Base=1, Align="top", M0="e", TabWs=(8,), Pre=0, Once=False, Tgt="auto", Faults=(), Cover=False, mode="bfs", shards=8, model="MC_Screen", extra=None, conf=None):
+    return dict(name=name, mode=mode, shards=shards, model=model, extra=extra or {}, conf=conf,
                 constants=dict(W=W, H=H, Multi=Multi, MaxBars=MaxBars, D=D, BarOps=set(BarOps), MpOps=set(MpOps),
                                MsgShapes=set(MsgShapes), TextShapes=set(TextShapes), Tpls=set(Tpls), Fins=set(Fins),
                                Hz=Hz, DTs=set(DTs), Base=Base, Align=Align, M0=M0, TabWs=set(TabWs), Pre=Pre, Once=Once, Tgt=Tgt, Faults=set(Faults), Cover=Cover))
@@ -60,7 +60,14 @@ def screen_check(pid, tier, seed, families, rules_note, need_paints=True, level=
             raise vlib.ToolError("family %s generated no histories" % f["name"])
         states += dist
         trans += gen
-        bad, st, total = vlib.replay_and_judge("%s_%s" % (pid, f["name"]), hs, "api", "Trace_Screen", shards=f["shards"])
+        bad, st, total = vlib.replay_and_judge("%s_%s" % (pid, f["name"]), hs, "api", "Trace_Screen", shards=f["shards"], keep_traces=bool(f.get("conf")))
+        conf = None
+        if f.get("conf"):
+            # trace validation of the implementation-shaped model: the recorded terminal calls of every history against MC_Multi / MC_Single
+            cc = dict(f["constants"], MaxLog=2, TextOnlyNewline=True)
+            if f["conf"] == "multi":
+                cc.update(ZombieAccounting="repaired", Base=0)
+            conf = vlib.conformance("%s_%s" % (pid, f["name"]), "Trace_MultiConf" if f["conf"] == "multi" else "Trace_SingleConf", cc)
         nh += len(hs)
         nrec += total
         for k, v in st.items():
@@ -69,6 +76,8 @@ def screen_check(pid, tier, seed, families, rules_note, need_paints=True, level=
             samples.append({"family": f["name"], "cfg": hs[len(hs) // 2]["cfg"], "ops": hs[len(hs) // 2]["ops"]})
         per_family.append({"family": f["name"], "mode": str(mode), "histories": len(hs), "records": total, "verdicts": len(bad),
                            "tlc_distinct_states": dist, "tlc_states_generated": gen})
+        if conf is not None:
+            per_family[-1]["model_conformance"] = conf
         byh = vlib.by_h(hs)
         for v in bad:
             h = byh(v["h"])
@@ -100,13 +109,13 @@ def screen_check(pid, tier, seed, families, rules_note, need_paints=True, level=
 def c01(pid, tier, seed):
     q = tier == "quick"
     fams = [
-        fam("single_w3", W=3, H=4, D=4 if q else 5, BarOps=("tick", "set_message", "println", "suspend", "finish", "finish_and_clear", "reset", "drop"),
+        fam("single_w3", conf="single", W=3, H=4, D=4 if q else 5, BarOps=("tick", "set_message", "println", "suspend", "finish", "finish_and_clear", "reset", "drop"),
             MsgShapes=("e", "a", "W", "W1", "nlA", "Anl"), TextShapes=("T", "TW1", "e"), Fins=("AndLeave", "AndClear")),
-        fam("single_shapes", W=4, H=3, D=3 if q else 4, BarOps=("set_message", "println", "finish_with_message", "tick"),
+        fam("single_shapes", conf="single", W=4, H=3, D=3 if q else 4, BarOps=("set_message", "println", "finish_with_message", "tick"),
             MsgShapes=("e", "a", "Wm1", "W", "W1", "2W", "2W1", "nlA", "Anl", "AnlB", "AnnB", "nl", "sgr", "sA", "wide", "WnnA", "WnA", "2WnnA"),
             TextShapes=("T", "TW", "TW1", "T2W1", "TnlT", "TnnT", "e", "nl", "nlT", "Tnl", "TWnnT", "T2WnnT", "TWnT", "TWnTW"), Tpls=("M", "PnM", "MnC"), Base=0),
         # a log line that is taller than the whole terminal (its top scrolls away, nothing may be lost)
-        fam("single_tall_log", W=3, H=4, D=4 if q else 5, BarOps=("tick", "set_message", "println", "finish"), MsgShapes=("a", "W1"), TextShapes=("T", "T5W"), Fins=("AndLeave",)),
+        fam("single_tall_log", conf="single", W=3, H=4, D=4 if q else 5, BarOps=("tick", "set_message", "println", "finish"), MsgShapes=("a", "W1"), TextShapes=("T", "T5W"), Fins=("AndLeave",)),
         fam("single_limited", W=3, H=4, D=4 if q else 5, BarOps=("burst", "tick", "set_message", "println", "finish", "finish_and_clear", "drop"), Hz=20, DTs=(0, 50000),
             MsgShapes=("a", "W1", "nlA"), TextShapes=("T", "TW1")),
         fam("single_pty", W=6, H=5, D=4 if q else 5, BarOps=("tick", "set_message", "println", "finish", "finish_and_clear", "drop"),
@@ -117,7 +126,7 @@ def c01(pid, tier, seed):
         fam("design_single", W=3, H=4, D=7 if q else 8, BarOps=("tick", "set_message", "println", "suspend", "finish", "finish_and_clear", "reset", "drop"),
             MsgShapes=("e", "a", "W", "W1", "nlA", "Anl", "WnnA"), TextShapes=("T", "TW1", "e", "TWnnT"), Tpls=("M", "PnM"), Fins=("AndLeave", "AndClear"),
             model="MC_Single", extra=dict(MaxLog=2, TextOnlyNewline=True)),
-        fam("design_single_cover", W=4, H=3, D=4 if q else 6, BarOps=("tick", "set_message", "println", "suspend", "finish_with_message", "finish_and_clear", "drop"),
+        fam("design_single_cover", conf="single", W=4, H=3, D=4 if q else 6, BarOps=("tick", "set_message", "println", "suspend", "finish_with_message", "finish_and_clear", "drop"),
             MsgShapes=("e", "a", "W", "W1", "2W1", "nlA", "AnnB"), TextShapes=("T", "TW", "e", "TnnT"), Tpls=("M", "MnC"), Fins=("AndLeave", "AndClear"), Cover=True,
             model="MC_Single", extra=dict(MaxLog=2, TextOnlyNewline=True)),
         fam("single_deep", W=5, H=6, D=30, BarOps=ALL_BAR_OPS - {"iter"}, MsgShapes=("e", "a", "W", "W1", "2W1", "nlA", "Anl", "AnnB", "sA", "wide"),
@@ -132,12 +141,12 @@ def c01(pid, tier, seed):
 def c02(pid, tier, seed):
     q = tier == "quick"
     fams = [
-        fam("multi_order", W=4, H=8, Multi=True, MaxBars=3, D=5 if q else 6, BarOps=("tick", "mp_remove"), MpOps=("insert", "insert_rel"),
+        fam("multi_order", conf="multi", W=4, H=8, Multi=True, MaxBars=3, D=5 if q else 6, BarOps=("tick", "mp_remove"), MpOps=("insert", "insert_rel"),
             Tpls=("M",), Fins=("AndLeave",), M0="id", shards=12),
-        fam("multi_life", W=4, H=8, Multi=True, MaxBars=2, D=5 if q else 6, BarOps=("tick", "set_message", "finish", "finish_and_clear", "drop", "mp_remove"),
+        fam("multi_life", conf="multi", W=4, H=8, Multi=True, MaxBars=2, D=5 if q else 6, BarOps=("tick", "set_message", "finish", "finish_and_clear", "drop", "mp_remove"),
             MpOps=("mp_println", "mp_clear"), MsgShapes=("a", "W1"), TextShapes=("T",), Fins=("AndLeave", "AndClear"), M0="id", shards=12),
         # members unlinked by set_draw_target, removed and added again (MultiProgress::add of an existing bar moves it to the end)
-        fam("multi_relink", W=6, H=10, Multi=True, MaxBars=3, Pre=2, D=6, BarOps=("tick", "set_target", "readd", "mp_remove", "finish", "drop") + (() if q else ("set_message",)),
+        fam("multi_relink", conf="multi", W=6, H=10, Multi=True, MaxBars=3, Pre=2, D=6, BarOps=("tick", "set_target", "readd", "mp_remove", "finish", "drop") + (() if q else ("set_message",)),
             MpOps=("mp_println", "insert"), MsgShapes=("a", "W1"), TextShapes=("T",), Tpls=("M",), Fins=("AndLeave",), M0="idw", shards=12),
     ] + ([] if q else [
         fam("multi_zombie_orders", W=4, H=12, Multi=True, MaxBars=3, Pre=3, Once=True, D=11, BarOps=("finish", "drop"), MpOps=("mp_println",),
@@ -148,9 +157,9 @@ def c02(pid, tier, seed):
         fam("design_multi_relink", W=4, H=14, Multi=True, MaxBars=3, Pre=2, Once=True, D=6 if q else 7, BarOps=("tick", "finish", "drop", "set_target", "readd", "mp_remove"),
             MpOps=("mp_println",), MsgShapes=("a",), TextShapes=("T",), Tpls=("M",), Fins=("AndLeave",), M0="id", Base=0,
             model="MC_Multi", extra=dict(MaxLog=2, TextOnlyNewline=True, ZombieAccounting="repaired")),
-        fam("multi_zombie_cover", W=4, H=14, Multi=True, MaxBars=4, Pre=3, Once=True, Cover=True, D=11 if q else 15, BarOps=("finish", "drop", "tick"), MpOps=(),
+        fam("multi_zombie_cover", conf="multi", W=4, H=14, Multi=True, MaxBars=4, Pre=3, Once=True, Cover=True, D=11 if q else 15, BarOps=("finish", "drop", "tick"), MpOps=(),
             Tpls=("M",), Fins=("AndLeave",), M0="id", shards=12),
-        fam("multi_zombie_cover_wrapped", W=4, H=16, Multi=True, MaxBars=3, Pre=3, Once=True, Cover=True, D=9 if q else 11, BarOps=("finish", "drop", "tick", "mp_remove"), MpOps=(),
+        fam("multi_zombie_cover_wrapped", conf="multi", W=4, H=16, Multi=True, MaxBars=3, Pre=3, Once=True, Cover=True, D=9 if q else 11, BarOps=("finish", "drop", "tick", "mp_remove"), MpOps=(),
             Tpls=("M",), Fins=("AndLeave",), M0="idw", shards=12),
         fam("multi_pty", W=6, H=10, Multi=True, MaxBars=2, D=4 if q else 5, BarOps=("tick", "set_message", "println", "finish", "drop", "mp_remove"),
             MpOps=("mp_println", "mp_clear"), MsgShapes=("a", "W1"), TextShapes=("T",), Fins=("AndLeave",), Tgt="pty", DTs=(0, 5000), M0="id", shards=12),
@@ -180,10 +189,10 @@ def c03(pid, tier, seed):
     fams = [
         fam("log_single_limited", W=4, H=6, D=4 if q else 5, BarOps=("burst", "tick", "println", "suspend", "set_message", "finish", "drop"),
             MsgShapes=("a", "W1", "nlA"), TextShapes=("T", "TW1", "TnlT", "e", "TWnnT"), Hz=1, DTs=(0,), Fins=("AndLeave", "AndClear")),
-        fam("log_multi", W=4, H=12, Multi=True, MaxBars=2, D=4 if q else 5, BarOps=("tick", "finish", "drop", "println"),
+        fam("log_multi", conf="multi", W=4, H=12, Multi=True, MaxBars=2, D=4 if q else 5, BarOps=("tick", "finish", "drop", "println"),
             MpOps=("mp_println", "mp_suspend", "mp_clear"), TextShapes=("T", "TW1"), Fins=("AndLeave",), Tpls=("M", "MnC"), M0="id", shards=12),
         # log lines taller than the terminal, through a bar and through the MultiProgress
-        fam("log_tall", W=3, H=4, Multi=True, MaxBars=2, Pre=1, D=4 if q else 5, BarOps=("tick", "println", "finish", "drop"), MpOps=("mp_println",), TextShapes=("T", "T5W"),
+        fam("log_tall", conf="multi", W=3, H=4, Multi=True, MaxBars=2, Pre=1, D=4 if q else 5, BarOps=("tick", "println", "finish", "drop"), MpOps=("mp_println",), TextShapes=("T", "T5W"),
             Fins=("AndLeave",), Tpls=("M",), M0="id", shards=12),
         fam("log_multi_limited", W=4, H=12, Multi=True, MaxBars=3, D=14, BarOps=("burst", "tick", "finish", "drop", "println", "set_message"),
             MpOps=("mp_println", "mp_suspend"), MsgShapes=("a", "W1"), TextShapes=("T", "TW1", "TnlT"), Fins=("AndLeave", "AndClear"),
@@ -202,13 +211,13 @@ def c04(pid, tier, seed):
     fams = [
         fam("fin_single", W=4, H=6, D=3 if q else 4, BarOps=finishes + ("burst", "set_message", "inc", "drop", "iter"), MsgShapes=("a", "W1"),
             Tpls=("MnC",), Fins=("AndLeave", "AndClear", "Abandon", "WithMessage", "AbandonWithMessage"), Hz=20, DTs=(0,), M0="id"),
-        fam("fin_single_unlimited", W=4, H=6, D=3 if q else 4, BarOps=finishes + ("tick", "reset", "drop", "iter", "set_length"), MsgShapes=("a",),
+        fam("fin_single_unlimited", conf="single", W=4, H=6, D=3 if q else 4, BarOps=finishes + ("tick", "reset", "drop", "iter", "set_length"), MsgShapes=("a",),
             Tpls=("MnC", "M"), Fins=("AndLeave", "AndClear", "Abandon", "WithMessage", "AbandonWithMessage"), M0="id"),
-        fam("fin_multi_orders", W=4, H=12, Multi=True, MaxBars=3, D=6 if q else 7, BarOps=("finish", "drop"), MpOps=(), Tpls=("MC",), Fins=("AndLeave", "AndClear"),
+        fam("fin_multi_orders", conf="multi", W=4, H=12, Multi=True, MaxBars=3, D=6 if q else 7, BarOps=("finish", "drop"), MpOps=(), Tpls=("MC",), Fins=("AndLeave", "AndClear"),
             M0="id", shards=12),
         fam("handles", W=6, H=8, D=4 if q else 6, BarOps=("clone", "drop_one", "drop", "downgrade", "upgrade", "tick", "finish", "reset_elapsed", "is_hidden"),
             Tpls=("MnC",), Fins=("AndLeave", "AndClear"), DTs=(0, 1000), M0="id"),
-        fam("fin_multi_wrapped", W=4, H=14, Multi=True, MaxBars=3, Pre=2, Once=True, Cover=True, D=9 if q else 11, BarOps=("finish", "drop", "tick"), MpOps=(),
+        fam("fin_multi_wrapped", conf="multi", W=4, H=14, Multi=True, MaxBars=3, Pre=2, Once=True, Cover=True, D=9 if q else 11, BarOps=("finish", "drop", "tick"), MpOps=(),
             Tpls=("M",), Fins=("AndLeave",), M0="idw", shards=12),
         fam("fin_multi_limited", W=4, H=12, Multi=True, MaxBars=3, D=12, BarOps=finishes + ("burst", "inc", "drop", "iter"), MsgShapes=("a",), Tpls=("MnC",),
             Fins=("AndLeave", "AndClear", "Abandon", "WithMessage"), Hz=2, DTs=(0, 1000), M0="id", mode=("sim", 400 if q else 4000, 14), shards=12),
@@ -240,12 +249,12 @@ def c19(pid, tier, seed):
     q = tier == "quick"
     fams = []
     for (w, h) in ([(1, 1), (1, 3), (2, 2), (3, 2), (3, 3)] if q else [(w, h) for w in (1, 2, 3, 4) for h in (1, 2, 3, 4)]):
-        fams.append(fam("geo_single_%dx%d" % (w, h), W=w, H=h, D=3, BarOps=("set_message", "println", "tick", "finish_and_clear"),
+        fams.append(fam("geo_single_%dx%d" % (w, h), conf="single", W=w, H=h, D=3, BarOps=("set_message", "println", "tick", "finish_and_clear"),
                         MsgShapes=("e", "a", "Wm1", "W", "W1", "2W", "2W1", "3W", "AnlB"), TextShapes=("T", "TW", "TW1", "T2W1"), Base=0, shards=4))
     # 2-column glyphs on even widths (no glyph straddles the right edge): rows follow the columns, not the number of characters
-    fams.append(fam("geo_wide_glyphs", W=4, H=5, D=4, BarOps=("set_message", "println", "tick", "finish_and_clear"), MsgShapes=("wide3", "wide", "a"), TextShapes=("T",),
+    fams.append(fam("geo_wide_glyphs", conf="single", W=4, H=5, D=4, BarOps=("set_message", "println", "tick", "finish_and_clear"), MsgShapes=("wide3", "wide", "a"), TextShapes=("T",),
                     Tpls=("M", "MnC"), Base=0))
-    fams.append(fam("geo_multi", W=2, H=3, Multi=True, MaxBars=5, D=5 if q else 7, BarOps=("tick", "finish_and_clear", "mp_remove"), MpOps=("mp_println",),
+    fams.append(fam("geo_multi", conf="multi", W=2, H=3, Multi=True, MaxBars=5, D=5 if q else 7, BarOps=("tick", "finish_and_clear", "mp_remove"), MpOps=("mp_println",),
                     TextShapes=("T",), Tpls=("M",), Fins=("AndLeave",), M0="id", shards=12))
     # set_move_cursor(true): no line is cleared, the frame is overwritten in place; with frames that keep their shape (here: wrapped lines of
     # constant width, only a digit changes) the screen must still be exactly the frame
